@@ -276,6 +276,19 @@ type rec struct {
 	C []uint16
 }
 
+type flatIn struct {
+	N uint16
+	B bool
+}
+
+// flat has no slice or string field: its zero value is what a decode of all-zero input yields
+type flat struct {
+	A uint32
+	B int16
+	C [2]uint8
+	D flatIn
+}
+
 func untouched() *venum.Check {
 	return &venum.Check{Name: "decode/failed-read-leaves-target-untouched", Family: "decode-target", Run: func(c *venum.Ctx) {
 		type tcase struct {
@@ -288,6 +301,13 @@ func untouched() *venum.Check {
 			{[3]int16{1, 2, 3}, [3]int16{7, 8, 9}}, {rec{1, "b", []uint16{5, 6}}, rec{9, "prev", []uint16{1}}},
 			{[]rec{{1, "b", nil}, {2, "c", []uint16{3}}}, []rec{{7, "p", []uint16{1}}, {8, "q", nil}, {9, "r", nil}}},
 			{true, false}, {float64(2.5), float64(-1)},
+			{flat{7, -2, [2]uint8{1, 2}, flatIn{5, true}}, flat{9, 9, [2]uint8{3, 3}, flatIn{1, false}}}, {[4]uint32{11, 12, 13, 14}, [4]uint32{1, 2, 3, 4}},
+			{[2]flatIn{{1, true}, {2, true}}, [2]flatIn{{8, false}, {9, true}}},
+		}
+		// every case twice: the target holds a previously decoded non-zero value / the target is the zero value of its type
+		// (a fresh variable, or one whose last decoded value happened to be all zeroes)
+		for _, tc := range append([]tcase(nil), cases...) {
+			cases = append(cases, tcase{tc.value, reflect.Zero(reflect.TypeOf(tc.pre)).Interface()})
 		}
 		for ci, tc := range cases {
 			w := messages.NewWriter()
